@@ -109,16 +109,32 @@ func runC09(w *World, r *Report, tier string) {
 		}
 		nWhole++
 		cons := fmt.Sprintf("%s#store:Session.SMState#%d", w.ownerKey(a.Fn), nWhole)
-		fields, al := complitFields(a.Val)
-		switch {
-		case isZeroValue(a.Val):
-			r.Ok("O2", cons, "zero state")
-		case al != nil:
-			_, setsInbound := fields["Inbound"]
-			r.Check(!setsInbound, "O2", cons, w.ipos(a.Instr), "a new SM state is created with a preset inbound count", "fresh state literal without Inbound")
-		case w.ownerKey(a.Fn) == "xmpp.NewSession" && isParamOf(a.Val, w.ownerFn(a.Fn)):
-			// initial state handed to a brand-new Session (c.Session == nil)
-			r.Ok("O2", cons, "initial state of a new Session object")
+		// every value the store can receive (a helper or function literal with several callers: each caller's argument)
+		verdict, detail := "ok", ""
+		for _, v := range originsAll(a.Val) {
+			fields, al := complitFields(v)
+			switch {
+			case isZeroValue(v):
+				detail = "zero state"
+			case al != nil:
+				if _, setsInbound := fields["Inbound"]; setsInbound {
+					verdict = "bad"
+				}
+				detail = "fresh state literal without Inbound"
+			case w.ownerKey(a.Fn) == "xmpp.NewSession" && isParamOf(v, w.ownerFn(a.Fn)):
+				// initial state handed to a brand-new Session (c.Session == nil)
+				detail = "initial state of a new Session object"
+			default:
+				if verdict == "ok" {
+					verdict = "unknown"
+				}
+			}
+		}
+		switch verdict {
+		case "ok":
+			r.Ok("O2", cons, detail)
+		case "bad":
+			r.Fail("O2", cons, w.ipos(a.Instr), "a new SM state is created with a preset inbound count")
 		default:
 			r.Undecided("O2", cons, w.ipos(a.Instr), "session SM state overwritten with a value the engine cannot classify")
 		}
@@ -158,10 +174,11 @@ func runC09(w *World, r *Report, tier string) {
 			}
 			switch fieldOfAddr(fa) {
 			case fSessSM:
-				if isZeroValue(st.Val) {
+				val := rvCur(st.Val) // the literal this path hands to a walked-through helper or function literal
+				if isZeroValue(val) {
 					return true
 				}
-				fields, al := complitFields(st.Val)
+				fields, al := complitFields(val)
 				_, sets := fields["Inbound"]
 				return al != nil && !sets
 			case fInbound:
